@@ -158,7 +158,7 @@ func listDepth(v interface{}) int {
 func (c09) Case(c *core.Ctx) {
 	r := c.R
 	cfg := DefaultCfg()
-	cfg.AttrPrefix = []string{"-", "-", "@", "attr_", "", "-", "@", "1", "[", "[1"}[r.Intn(10)]
+	cfg.AttrPrefix = []string{"-", "-", "@", "attr_", "", "-", "@", "1", "[", "[1", "#", "#t", "#text"}[r.Intn(13)]
 	cfg.KeyPrefix = []string{"#", "#", "%"}[r.Intn(3)]
 	textK := cfg.textK()
 	arbitrary := r.Intn(4) == 0 || strings.Contains(cfg.AttrPrefix, "[") // (attribute keys then contain '[': path text is not compared)
